@@ -22,11 +22,16 @@ def H(name, *args):
 
 FUNCS = {"exp": lambda x: H("exp", x), "log": lambda x: H("log", x), "sqrt": lambda x: H("sqrt", x),
          "pow": lambda a, b: H("pow", a, b), "log10": lambda x: H("log10", x)}
+for _f in ("sin", "cos", "tan", "asin", "acos", "atan", "sinh", "cosh", "tanh", "asinh", "acosh", "atanh", "abs"):
+    FUNCS[_f] = (lambda x, _n=_f: H(_n, x))
 VARS = {"Tgas": Fraction(123, 7), "T32": Fraction(11, 3), "invT": Fraction(2, 9), "Te": Fraction(5, 13), "user_a": Fraction(17, 4),
         "nH": Fraction(1000, 3)}
 NUMS = [("1.5d0", Fraction(3, 2)), ("2d-3", Fraction(2, 1000)), ("1.d3", Fraction(1000)), ("3.0", Fraction(3)), ("4.0e2", Fraction(400)),
         ("2.5d-1", Fraction(1, 4)), ("7", Fraction(7)), ("1.0d-09", Fraction(1, 10**9)), ("3d03", Fraction(3000)), ("1.2d01", Fraction(12)),
-        ("1d0", Fraction(1)), ("3d0", Fraction(3)), ("2d0", Fraction(2)), ("4d00", Fraction(4))]
+        ("1d0", Fraction(1)), ("3d0", Fraction(3)), ("2d0", Fraction(2)), ("4d00", Fraction(4)),
+        # literals with many significant digits (fit coefficients, physical constants): every digit reaches the C text
+        ("1.0670825d-10", Fraction("1.0670825e-10")), ("3.14159265358979d0", Fraction("3.14159265358979")), ("6.02214076d23", Fraction("6.02214076e23")),
+        ("1.380649d-16", Fraction("1.380649e-16")), ("0.28770560d0", Fraction("0.28770560")), ("32.71396786d0", Fraction("32.71396786"))]
 
 
 def gen(rnd, depth):
@@ -40,7 +45,7 @@ def gen(rnd, depth):
             n = rnd.choice(list(VARS))
             return n, VARS[n]
         if k < 0.5:
-            f = rnd.choice(["exp", "log", "sqrt"])
+            f = rnd.choice(["exp", "log", "sqrt", "exp", "log", "sqrt", "atan", "tanh", "asin", "cosh", "acos", "sin", "log10", "abs"])
             t, v = expr(d - 1)
             return f"{f}({t})", FUNCS[f](v)
         if k < 0.6:
@@ -87,6 +92,10 @@ DIRECTED = [
     ("1d0/3d0*Tgas", Fraction(1, 3) * VARS["Tgas"], "double-literal-quotient"),
     ("Tgas**(1d0/3d0)", FUNCS["pow"](VARS["Tgas"], Fraction(1, 3)), "double-literal-quotient"),
     ("(1d0/2d0)*n(idx_H)", Fraction(1, 2) * Fraction(29, 5), "double-literal-quotient"),
+    # a rate that is nothing but a constant
+    ("1.0670825d-10", Fraction("1.0670825e-10"), "constant-rate"), ("2.5d-9", Fraction("2.5e-9"), "constant-rate"), ("7.23456789d-17", Fraction("7.23456789e-17"), "constant-rate"),
+    ("1.d-9*atan(Tgas/1.d3)", Fraction(1, 10**9) * FUNCS["atan"](VARS["Tgas"] / 1000), "inverse-function"),
+    ("asinh(T32)*acosh(Te+2d0)/atanh(invT)", FUNCS["asinh"](VARS["T32"]) * FUNCS["acosh"](VARS["Te"] + 2) / FUNCS["atanh"](VARS["invT"]), "inverse-function"),
     # a sum whose second term is a power with a literal base, written without blanks
     ("Tgas-2**T32", VARS["Tgas"] - FUNCS["pow"](Fraction(2), VARS["T32"]), "sum-of-power-no-blanks"),
     ("T32+1d1**(invT)", VARS["T32"] + FUNCS["pow"](Fraction(10), VARS["invT"]), "sum-of-power-no-blanks"),
@@ -141,7 +150,7 @@ def oracle(tier, seed):
             else:
                 c = translate([t]).reaction_list[0].rateexpr()
         except Exception as e:
-            if kind == "generated" or kind in ("nested-quotient", "bundled-style-power", "zero-padded-exponent", "double-literal-quotient"):
+            if kind == "generated" or kind in ("nested-quotient", "bundled-style-power", "zero-padded-exponent", "double-literal-quotient", "constant-rate", "inverse-function", "sum-of-power-no-blanks"):
                 V(f"rejected-grammar-expression: {t!r}: {type(e).__name__}: {str(e)[:100]}")
             continue      # rejected at generation time: allowed for expressions the translator does not accept
         if len(samples) < 5:
